@@ -39,6 +39,18 @@ def run(ctx: Ctx):
   m = model(ctx)
   for r in (r1, r2, r3, r4, r5):
     ctx.guard(r, m)
+  from mlmverif.props import c04
+  ctx.include('R-C05-6', '"never an indefinite wait": the queue\'s monitor'
+              ' discipline on the stop/failure paths — CV discipline (R-C04-1),'
+              ' lock balance (R-C04-3), lock-order acyclicity and no wait under'
+              ' a second lock (R-C04-4), re-test after a temporary release'
+              ' (R-C04-9)', _c04_shared, m, min_instances=15)
+
+
+def _c04_shared(sub, m):
+  from mlmverif.props import c04
+  for r in (c04.r1, c04.r3, c04.r4, c04.r9):
+    r(sub, m)
 
 
 def _explicit_only(n, mm, lab):
